@@ -12,7 +12,7 @@ spec, rest = args[:i], args[i + 1:]
 extra = []
 if "--" in rest:
     j = rest.index("--"); rest, extra = rest[:j], rest[j + 1:]
-d = tempfile.mkdtemp(prefix="mut_", dir="/tmp")
+d = tempfile.mkdtemp(prefix="coordscratch_", dir="/tmp")
 try:
     shutil.copytree("/repo/nifty", os.path.join(d, "nifty"), ignore=shutil.ignore_patterns("__pycache__"))
     if spec[0] == "--patch":
